@@ -31,7 +31,7 @@ RULE = ("a ThreadedWriter around a recording destination (with a failure mask ov
         "queued behind everything offered before); with a stalled destination (logical clock) further offers never wait; messages buffered by eliot before any destination existed are handed to the writer by startService itself and written first; a redundant stopService() "
         "(not running) raises ValueError and leaves nothing behind for the next cycle; part 'signals' (forked child, OS scheduling): an interval "
         "timer's handler offers messages on the thread that is itself offering 30 000 messages - no offer blocks, both sequences are written in order; two fifths of the messages are dict subclasses whose == answers "
-        "True to anything or only works against mappings, half of the destination failures carry unhashable arguments. non-trivial = schedule whose preemption fired in logwriter.py or with stop concurrent to offers; distinct by "
+        "True to anything or only works against mappings, half of the destination failures carry unhashable arguments; part 'nostderr' (forked child, OS scheduling): the process has no usable standard error stream (sys.stderr a closed file, fd 2 closed, fd 2 a pipe without reader, sys.stderr None) while the wrapped destination raises for some of the messages offered by one or two threads over 1-2 cycles - every message is still passed to the destination exactly once, in order, on one foreign thread, before stopService's result completes. non-trivial = schedule whose preemption fired in logwriter.py or with stop concurrent to offers; distinct by "
         "interleaving hash")
 ASSUMPTIONS = ["twisted is not installed: Service and deferToThreadPool are the stand-ins of vf/twisted_stub.py, which reproduce only the two "
                "behaviours ThreadedWriter relies on", "messages offered concurrently with stopService are only required to be written at most once"]
@@ -45,6 +45,7 @@ def plan(tier, seed):
     specs += [{"seed": seed, "i": i, "tier": tier, "backlog": True} for i in range(4 if tier == "quick" else 12)]
     specs += [{"seed": seed, "i": i, "tier": tier, "slow": True} for i in range(4 if tier == "quick" else 24)]
     specs += [{"seed": seed, "i": i, "tier": tier, "signals": True} for i in range(4 if tier == "quick" else 12)]
+    specs += [{"seed": seed, "i": i, "tier": tier, "nostderr": True} for i in range(5 if tier == "quick" else 40)]
     return specs
 
 
@@ -353,7 +354,8 @@ def run_signals(spec, res):
             progress[0] += 1
             main_seq = [m["seq"] for m in got if m["p"] == "main"]
             sig_seq = [m["seq"] for m in got if m["p"] == "sig"]
-            os.write(w, json.dumps({"main_ok": main_seq == list(range(n)), "sig_ok": sorted(sig_seq) == list(range(extra[0])),  # (handler invocations may nest: exactly once, any order) "signals": extra[0],
+            os.write(w, json.dumps({"main_ok": main_seq == list(range(n)), "sig_ok": sorted(sig_seq) == list(range(extra[0])),  # (handler invocations may nest: exactly once, any order)
+                                    "signals": extra[0],
                                     "written": len(got)}).encode())
         except BaseException as e:
             try:
@@ -390,11 +392,199 @@ def run_signals(spec, res):
     if problems:
         res["violations"].append({"msg": problems[0], "mech": None, "detail": {"part": "signals", "problems": problems}})
 
+STDERR_STATES = ["closed_file", "closed_fd", "broken_pipe", "closed_file_and_fd", "none"]
+
+
+def _break_stderr(state):
+    """Put the (forked, throw-away) process into a state in which nothing can be written to standard error."""
+    import os
+    import sys
+    if state in ("closed_file", "closed_file_and_fd"):
+        f = open(os.devnull, "w")
+        f.close()
+        sys.stderr = f
+        if state == "closed_file_and_fd":
+            try:
+                os.close(2)
+            except OSError:
+                pass
+    elif state == "closed_fd":
+        # a daemonised process: the stream object is there, the descriptor under it is gone
+        sys.stderr = os.fdopen(2, "w", buffering=1, closefd=False)
+        os.close(2)
+    elif state == "broken_pipe":
+        # stderr was a pipe to a supervisor that went away
+        r, w = os.pipe()
+        os.close(r)
+        os.dup2(w, 2)
+        os.close(w)
+        sys.stderr = os.fdopen(2, "w", buffering=1, closefd=False)
+    elif state == "none":
+        sys.stderr = None  # pythonw-style
+    sys.__stderr__ = sys.stderr
+
+
+def run_nostderr(spec, res):
+    """'An exception from the wrapped destination loses only that message and does not stop the writer' - also in a process
+    that has no usable standard error stream. Forked child, OS scheduling; the parent judges the history the child reports."""
+    import json
+    import os
+    import select
+    import signal
+    import time
+    rng = random.Random("%s:C19:nostderr:%d" % (spec["seed"], spec["i"]))
+    state = STDERR_STATES[spec["i"] % len(STDERR_STATES)]
+    nprod = rng.choice([1, 1, 2])
+    nmsg = rng.choice([4, 6, 12, 40])
+    cycles = rng.choice([1, 1, 2])
+    keys = [(p, s_, c_) for c_ in range(cycles) for p in range(nprod) for s_ in range(nmsg)]
+    failing = set(k for k in keys if rng.random() < 0.35)
+    if not failing:
+        failing.add(keys[rng.randrange(len(keys))])
+    if keys[-1] in failing and len(keys) > 1:
+        failing.discard(keys[-1])  # at least one message follows a failure
+        failing.add(keys[0])
+    kinds = [rng.choice(["oserror", "destfault", "unhashable", "value", "unicode"]) for _ in keys]
+    kind_of = dict(zip(keys, kinds))
+    r, w = os.pipe()
+    pid = os.fork()
+    if pid == 0:
+        code = 0
+        try:
+            os.close(r)
+            calls = []  # (p, seq, cyc, thread ident), recorded on entry of the wrapped destination
+
+            def dest(msg):
+                key = (msg["p"], msg["seq"], msg["cyc"])
+                calls.append(key + (_thread.get_ident(),))
+                if key in failing:
+                    kind = kind_of[key]
+                    if kind == "oserror":
+                        raise OSError(28, "No space left on device")
+                    if kind == "destfault":
+                        raise excs.DestFault("wrapped destination fails for %r" % (key,))
+                    if kind == "unhashable":
+                        raise excs.DestFault("wrapped destination fails", {"affected": dict(msg)}, [key])
+                    if kind == "value":
+                        raise ValueError("I/O operation on closed file.")
+                    "\udcff".encode("utf-8")  # UnicodeEncodeError
+
+            _break_stderr(state)
+            with warnings.catch_warnings():
+                warnings.simplefilter("ignore")
+                writer = logwriter.ThreadedWriter(dest, twisted_stub.Reactor())
+            callers = [_thread.get_ident()]
+            completed = []
+            for cyc in range(cycles):
+                with warnings.catch_warnings():
+                    warnings.simplefilter("ignore")
+                    writer.startService()
+
+                def offer(p, cyc=cyc):
+                    if p:
+                        callers.append(_thread.get_ident())
+                    for s_ in range(nmsg):
+                        writer(make_message(p, s_, cyc))
+                others = [sched._real_Thread(target=offer, args=(p,), daemon=True) for p in range(1, nprod)]
+                for t in others:
+                    t.start()
+                offer(0)
+                for t in others:
+                    t.join()
+                with warnings.catch_warnings():
+                    warnings.simplefilter("ignore")
+                    writer.stopService().wait()
+                completed.append(len(calls))  # how many destination calls had been made when stopService's result completed
+            os.write(w, json.dumps({"calls": calls, "callers": callers, "completed": completed}).encode())
+        except BaseException as e:
+            try:
+                os.write(w, json.dumps({"error": repr(e)}).encode())
+            except BaseException:
+                pass
+            code = 3
+        finally:
+            os._exit(code)
+    os.close(w)
+    data = b""
+    deadline = time.monotonic() + 120
+    timed_out = False
+    while True:
+        left = deadline - time.monotonic()
+        if left <= 0 or not select.select([r], [], [], left)[0]:
+            timed_out = True
+            break
+        b = os.read(r, 65536)
+        if not b:
+            break
+        data += b
+    os.close(r)
+    if timed_out:
+        try:
+            os.kill(pid, signal.SIGKILL)
+        except OSError:
+            pass
+    _, status = os.waitpid(pid, 0)
+    problems = []
+    res["evals"] += 1
+    c = res["counters"]
+    if timed_out:
+        res["inconclusive"] = "child without a usable stderr (%s) did not report within 120 s" % state
+        return
+    if not data:
+        res["inconclusive"] = "child without a usable stderr (%s) ended with status %r and no report" % (state, status)
+        return
+    rep = json.loads(data.decode())
+    if rep.get("error"):
+        problems.append("with stderr %s: the caller's side raised %s" % (state, rep["error"]))
+    else:
+        calls = [tuple(x) for x in rep["calls"]]
+        got = [x[:3] for x in calls]
+        count = {}
+        for k in got:
+            count[k] = count.get(k, 0) + 1
+        twice = sorted(k for k in count if count[k] > 1)
+        if twice:
+            problems.append("message %s was passed to the wrapped destination %d times" % (twice[0], count[twice[0]]))
+        for cyc in range(cycles):
+            # everything of this cycle was offered (the offers returned) before its stopService was called
+            seen_by_stop = set(got[:rep["completed"][cyc]])
+            missing = [k for k in keys if k[2] == cyc and k not in count]
+            late = [k for k in keys if k[2] == cyc and k in count and k not in seen_by_stop]
+            if missing:
+                before = [k for k in got if k in failing and k[2] == cyc]
+                problems.append("process without a usable stderr (%s): %d of the %d messages offered in cycle %d were never passed to the wrapped destination "
+                                "although stopService's result completed, first %s (the destination raised for %s; calls made: %d)" % (
+                                    state, len(missing), nprod * nmsg, cyc, missing[0], before[:3], len(got)))
+            elif late:
+                problems.append("message %s was written only after stopService's result had completed (stderr %s)" % (late[0], state))
+            idents = set(x[3] for x in calls if x[2] == cyc)
+            if len(idents) > 1:
+                problems.append("cycle %d: writes happened on %d different threads" % (cyc, len(idents)))
+            if idents & set(rep["callers"]):
+                problems.append("cycle %d: the wrapped destination was called on a caller's thread" % cyc)
+        for p in range(nprod):
+            seq = [(k[2], k[1]) for k in got if k[0] == p]
+            if seq != sorted(seq):
+                problems.append("producer %d's messages were passed out of order: %s" % (p, seq[:12]))
+        c["nostderr_destination_faults_fired"] = c.get("nostderr_destination_faults_fired", 0) + sum(1 for k in got if k in failing)
+        c["nostderr_calls_after_a_fault"] = c.get("nostderr_calls_after_a_fault", 0) + sum(
+            1 for i, k in enumerate(got) if any(j in failing for j in got[:i]))
+    c["nostderr_runs"] = c.get("nostderr_runs", 0) + 1
+    c["nostderr_" + state] = c.get("nostderr_" + state, 0) + 1
+    res["nontrivial"].append(h(["nostderr", state, nprod, nmsg, cycles, sorted(failing)]))
+    if problems:
+        res["violations"].append({"msg": problems[0], "mech": None,
+                                  "detail": {"part": "nostderr", "stderr": state, "producers": nprod, "messages_each": nmsg, "cycles": cycles,
+                                             "failing": sorted(failing)[:20], "problems": problems[:4], "calls": rep.get("calls", [])[:40]}})
+
 
 def run_case(spec):
     res = {"evals": 0, "nontrivial": [], "counters": {}, "violations": [], "sample": None, "sets": {"interleavings": [], "preemption_lines": []}}
     if spec.get("signals"):
         run_signals(spec, res)
+        return res
+    if spec.get("nostderr"):
+        run_nostderr(spec, res)
         return res
     rng = random.Random("%s:C19:%d" % (spec["seed"], spec["i"]))
     sched.instrument([logwriter])
@@ -501,4 +691,6 @@ def finalize(agg, tier):
         return "the writer's own threads were never registered with the scheduler"
     if not any(l.startswith("logwriter.py") for l in agg["sets"].get("preemption_lines", {})):
         return "no preemption landed inside eliot/logwriter.py"
+    if c.get("nostderr_destination_faults_fired", 0) == 0:
+        return "part 'nostderr' never had the wrapped destination raise in a process without a usable stderr"
     return None
